@@ -158,3 +158,9 @@ type BookNode = book.Node
 
 // XMLDataToNode converts one XML data document to the node tree confgen parses.
 func XMLDataToNode(rawDoc string) (*BookNode, error) { return importer.VerifXMLDataToNode(rawDoc) }
+
+// DocumentParse is confgen's document parser on a node tree.
+func DocumentParse(md protoreflect.MessageDescriptor, bookOpts *tableaupb.WorkbookOptions, sheetOpts *tableaupb.WorksheetOptions,
+	sheetName string, doc *BookNode, bookFormat format.Format) (proto.Message, error) {
+	return confgen.VerifDocumentParse(md, bookOpts, sheetOpts, sheetName, doc, bookFormat)
+}
